@@ -81,10 +81,10 @@ def main():
         meta["demo_cmd"] = demo_cmd
         rc_with, out_with = run(demo_cmd + " 2>&1 | tail -15", cwd=wt)
         failed_with = "FAILED" in out_with or "panicked" in out_with or "error" in out_with.lower() and "test result: ok" not in out_with
-        run(f"git apply -R {dest}/patch.diff", cwd=wt)
+        run(f"git apply -R {dest}/patch.diff" if not meta.get("patch_applied_with_fuzz") else f"patch -R -p1 --fuzz=3 --no-backup-if-mismatch < {dest}/patch.diff", cwd=wt)
         rc_wo, out_wo = run(demo_cmd + " 2>&1 | tail -8", cwd=wt)
         passed_without = "test result: ok" in out_wo and "FAILED" not in out_wo
-        run(f"git apply {dest}/patch.diff", cwd=wt)
+        run(f"git apply {dest}/patch.diff" if not meta.get("patch_applied_with_fuzz") else f"patch -p1 --fuzz=3 --no-backup-if-mismatch < {dest}/patch.diff", cwd=wt)
         meta["demo_with_change"] = "FAIL" if failed_with else "PASS(unexpected)"
         meta["demo_without_change"] = "PASS" if passed_without else "FAIL(unexpected)"
         meta["ran"].append(f"{demo_cmd}: with change {meta['demo_with_change']}, without {meta['demo_without_change']}")
